@@ -348,6 +348,19 @@ def search(ctx):
                     n0, n1 = float(np.ravel(res[0].noise_sd)[0]) if np.ndim(res[0].noise_sd) else float(res[0].noise_sd), float(np.ravel(res[1].noise_sd)[0]) if np.ndim(res[1].noise_sd) else float(res[1].noise_sd)
                     if abs(n0 - n1) > 1e-10 or (not colour and abs(n0 - wn) > 1e-8):
                         ctx.violation("C16:average-noise", "relative noise of the averaged image wrong or order dependent (%r, %r, expected %r)" % (n0, n1, wn), dict(info, kind="average"))
+                    # the averaged image is an image: it survives save -> load with its values, axes and noise level
+                    if nx >= 2 and ny >= 2:
+                        pav = os.path.join(WORK, "avg%d.h5" % i)
+                        ctx.tried("average-saved", (nx, ny, colour, i))
+                        rb = impl_call(lambda: (hp.save(pav, res[0]), hp.load(pav))[1])
+                        if isinstance(rb, tuple) and len(rb) == 2 and rb[0] == "err":
+                            ctx.violation("C16:average-saved-raises:%s" % rb[1], "an image returned by load_average (%s) cannot be saved to HDF5 and loaded again: %s" % ("colour" if colour else "greyscale", rb[1]),
+                                          dict(info, kind="average-saved", colour=bool(colour)))
+                        else:
+                            nb = np.asarray(rb.attrs.get('noise_sd'), dtype=float).ravel()
+                            na = np.asarray(res[0].attrs.get('noise_sd'), dtype=float).ravel()
+                            if not (np.array_equal(rb.values, res[0].values) and all(np.array_equal(rb[d].values, res[0][d].values) for d in res[0].dims) and nb.shape == na.shape and np.allclose(nb, na, rtol=1e-15, atol=0)):
+                                ctx.violation("C16:average-saved", "an image returned by load_average changes through HDF5 save/load (values, axes or noise level)", dict(info, kind="average-saved", colour=bool(colour)))
                     # averaging onto a reference image that is a region of the frame (a cropped hologram keeps its coordinates)
                     if not colour and nx >= 3 and ny >= 3:
                         full = load_image(paths[0], spacing=spx)
